@@ -2,6 +2,7 @@ package codec
 
 import (
 	"bytes"
+	"encoding/base64"
 	"fmt"
 	"reflect"
 	"strconv"
@@ -204,11 +205,24 @@ func repairValue(v any) bool {
 
 var alType = reflect.TypeOf(Al{})
 
+// maps with every kind of element (the decoder reuses one scratch element per map)
+type St14 struct {
+	MS  map[string][]int          `json:"ms"`
+	MSS map[string][]string       `json:"mss"`
+	MP  map[string]*int           `json:"mp"`
+	MA  map[string][2]int         `json:"ma"`
+	MI  map[string]any            `json:"mi"`
+	MM  map[string]map[string]int `json:"mm"`
+	MST map[string]In1            `json:"mst"`
+	MB  map[string][]byte         `json:"mb"`
+	MSL map[string][][]int        `json:"msl"`
+}
+
 var staticTypes = []reflect.Type{
 	reflect.TypeOf(St1{}), reflect.TypeOf(St2{}), reflect.TypeOf(St3{}), reflect.TypeOf(St4{}), reflect.TypeOf(St5{}),
 	reflect.TypeOf(St6{}), reflect.TypeOf(St7{}), reflect.TypeOf(Node{}), reflect.TypeOf(St8{}), reflect.TypeOf(St9{}),
 	reflect.TypeOf([]St1{}), reflect.TypeOf(map[string]Node{}), reflect.TypeOf([2]St5{}),
-	alType, reflect.TypeOf(St10{}), reflect.TypeOf(St11{}), reflect.TypeOf(St12{}), reflect.TypeOf(St13{}), reflect.TypeOf([]St13{}), reflect.TypeOf(map[string]*St10{}),
+	reflect.TypeOf(St14{}), reflect.TypeOf(map[string][]int{}), reflect.TypeOf(map[string][]string{}), alType, reflect.TypeOf(St10{}), reflect.TypeOf(St11{}), reflect.TypeOf(St12{}), reflect.TypeOf(St13{}), reflect.TypeOf([]St13{}), reflect.TypeOf(map[string]*St10{}),
 }
 
 var embedTypes = []reflect.Type{reflect.TypeOf(In1{}), reflect.TypeOf(In2{}), reflect.TypeOf(In3{}), reflect.TypeOf(&In1{}), reflect.TypeOf(Lv2{}), reflect.TypeOf(Lv1{}), reflect.TypeOf(&Lv3{})}
@@ -403,6 +417,9 @@ func GenFor(g *gen.G, t reflect.Type, depth int) string {
 	case reflect.Float32, reflect.Float64:
 		return r.Pick([]string{"0", "1.5", "-2.25", "1e10", "1e-10", "3.4028235e38", "3.5e38", "1e400", "0.1", "-0", "100", "1E+2", "16777217"})
 	case reflect.String:
+		if r.P(25) {
+			return `"` + strings.Repeat(r.Pick([]string{"abcdefghij", "<&>", "\u00e9", "\\n", "x"}), 500+r.Intn(9000)) + `"`
+		}
 		return g.R.Pick(stringLitsLocal)
 	case reflect.Interface:
 		return g.Value(2)
@@ -413,6 +430,15 @@ func GenFor(g *gen.G, t reflect.Type, depth int) string {
 		return GenFor(g, t.Elem(), depth)
 	case reflect.Slice:
 		if t.Elem().Kind() == reflect.Uint8 {
+			if r.P(60) {
+				// more than 4096 bytes once decoded (block boundaries of the base64 paths)
+				n := 4097 + r.Intn(9000)
+				raw := make([]byte, n)
+				for i := range raw {
+					raw[i] = byte(i*7 + n)
+				}
+				return `"` + base64.StdEncoding.EncodeToString(raw) + `"`
+			}
 			return r.Pick([]string{`""`, `"aGVsbG8="`, `"aGVsbG8"`, `"AA=="`, `"!!!"`, `"/+8="`, `"_-8="`, "null", `"aGVs\nbG8="`, `[1,2]`})
 		}
 		if r.P(100) {
